@@ -499,8 +499,12 @@ func (e *EdgeQuery) addResult(r EdgeQueryResult) {
 }
 
 func (e *EdgeQuery) maybeAddResult(shape Shape, shapeID, edgeID int32) {
-	if _, ok := e.testedEdges[ShapeEdgeID{shapeID, edgeID}]; e.avoidDuplicates && !ok {
-		return
+	if e.avoidDuplicates {
+		key := ShapeEdgeID{shapeID, edgeID}
+		if _, ok := e.testedEdges[key]; ok {
+			return
+		}
+		e.testedEdges[key] = 1
 	}
 	edge := shape.Edge(int(edgeID))
 	dist := e.distanceLimit
